@@ -14,7 +14,7 @@ CHECKS = {
         engine="bex",
         text="Every bool expression with <= 4 operator nodes over {a,b,c,true,false} (all 13.3 M trees) and every float "
              "expression with <= 3 (thorough: 4) operator nodes on an exact-arithmetic grid is generated on the package's own "
-             "example generators and on replicas with permuted commutative flags, optimizer on and off, evaluated on every "
+             "example generators, on replicas with permuted commutative flags and on replicas with the operators declared in 3 other orders (other priorities; the prefix operator's binary twin first), optimizer on and off, evaluated on every "
              "assignment and compared with direct evaluation by the operators' Go definitions; let/if forms incl. lets nested inside the "
              "value of a let, evaluated also through Func.Eval on rows of one table, with the variable names handed to Generate as a "
              "slice with spare capacity (results, table and names must be untouched). Exhaustive within the bound, "
@@ -62,7 +62,8 @@ CHECKS.update({
              "generated with GenerateWithMap(exp) and, after the checks' own free-variable substitution x -> this.x on the AST, with Generate(exp'); both "
              "are evaluated on the same map in five storage representations, optimizer on and off; Generate-time success and outcomes must agree. A second "
              "attribute set holds closures (f:(int,int)->int, g:int->int): implicit calls f(..) against the method-call form this.f(..), with let/func inside the arguments; "
-             "a third one stores closures under names of map methods (put, get); constants added to a generator AFTER its first GenerateWithMap must shadow attributes too.",
+             "a third one stores closures under names of map methods (put, get); constants added to a generator AFTER its first GenerateWithMap must shadow attributes too; the fixed templates and all binder skeletons with <= 2 binders also run with the "
+             "argument map named m, max, string, numbers (static functions), pi (a constant) and a (one of its own attributes).",
         note="Trusted: the free-variable substitution of internal/vlang. The explicit form's own correctness is C01's claim.",
         technique="bounded-exhaustive differential enumeration (implicit vs explicit attribute access)",
         design_ref="DESIGN.md §5 C16",
@@ -72,8 +73,8 @@ CHECKS.update({
 CHECKS.update({
     "C14": dict(
         level="exploration", engine="bex",
-        text="A pool of 211 values (thorough: 389: ints up to +-(2^53-1), floats with +-0, +-Inf, NaN and neighbours of ints, strings, bools, closures, "
-             "nested lists eager and lazy in 5 representations, maps in 5 representations, plus every list of length <= 2 (3) and every map over two keys "
+        text="A pool of about 220 values (thorough: about 400: ints up to +-(2^53-1), floats with +-0, +-Inf, NaN, neighbours of ints and finite values beyond the int range (2^63, +-1e19), strings, bools, closures, "
+             "nested lists eager and lazy in 7 representations (incl. concatenations with exactly one part of unknown size), maps in 5 representations, plus every list of length <= 2 (3) and every map over two keys "
              "from a small atom set) is enumerated exhaustively: all ordered pairs x the 7 operators = != < > <= >= ~, each generated once as 'a OP b' and "
              "called on freshly built argument values, are checked against a reference relation written from the property text and against every law of the "
              "property as relations between table entries; all triples of the numeric and string sub-pools for transitivity; min, max, list.min/max, "
@@ -157,7 +158,7 @@ CHECKS.update({
              "+-MaxFloat64 (weights 1, 0.5, -2), in one and two dimensions (all 45x45 axis pairs for single records), evaluated through value.New().Generate on the "
              "real binning/binning2d/collectBinning and compared with a reference histogram, the exact weight sum and the exact interval description of every bin. "
              "Single records are also binned on 4608 (thorough: 18432) grids with sizes n, n/2, n/8 for every n <= 128 (512). Additivity is checked for every list against every splitting into 1 part, 2 parts (all subsets) and 3 contiguous parts, empty parts included, "
-             "collecting twice from the same part binnings (collecting must not change its parts). "
+             "collecting twice from the same part binnings (collecting must not change its parts). Lists of <= 2 (2-d: <= 1) records are also binned AFTER the same binning has failed half way on a list with a string in a numeric field. "
              "Exhaustive within these bounds (4.3 M cases quick, about 115 M thorough).",
         note="Trusted: the reference bin index (comparisons of x with edges start+k*size computed with big.Rat and asserted exactly representable), Go float64 "
              "addition of dyadic weights. +-1-ulp neighbours of an edge are judged only when (x-start)/size is exact in float64 (others counted in "
@@ -232,7 +233,7 @@ CHECKS.update({
              "quotes/stars/slashes/line breaks, at end and start of input) in every gap one at a time, with every assignment to all gaps at once for programs <= 3 "
              "(thorough <= 4; <= 5 with a 6-separator set) tokens and every pair of gaps beyond, x comments on/off x comfort on/off. The parse must give the canonical "
              "rendering's AST, and every node/error line must be the renderer's line of the token that node kind records. All strings and quoted identifiers of <= 3 "
-             "(<= 4) symbols, all aliases/superscripts and all comfort juxtaposition patterns are checked against source string / ASCII spelling / explicit '*'. "
+             "(<= 4) symbols, all aliases/superscripts (aliases also with comments written tight against them) and all comfort juxtaposition patterns are checked against source string / ASCII spelling / explicit '*'. "
              "Every block-comment content of <= 3 (4) symbols over {c * / LF blank quote} and every line-comment content of <= 2 (3) symbols is placed in every gap "
              "of 11 fixed programs. Exhaustive within these bounds (10.6 M evaluations quick, 214 M thorough).",
         note="Trusted: the check's reference lexer (decides which separators are admissible), the node-kind->token rule read off parser2.go, Go's strings. Optimizer "
@@ -247,7 +248,7 @@ CHECKS.update({
              "every list/map representation constructible through the public API (13+1 map, 6+1 list), 19 boundary scalars, and every value tree of height <= 3 with "
              "<= 2 children per node (thorough: also 4 leaf classes and every such tree below 1-2 further containers, depth 5) is exported by the real JSON exporter; "
              "encoding/json must accept the document and a token-level decode must yield arrays in order, exactly the key set without duplicates, and every scalar as "
-             "the JSON string of its string form. Exhaustive within these bounds (5.2 M / 53 M cases).",
+             "the JSON string of its string form; every document is kept as returned and must be unchanged after the next value has been exported. Exhaustive within these bounds (5.2 M / 53 M cases).",
         note="Trusted: encoding/json as the standard parser, strconv for the documented string form of scalars, the tree builder internal/exptree. Domain: valid UTF-8, "
              "distinct keys. Not decided: all binary trees of height >= 4, strings longer than 3 symbols.",
         technique="bounded-exhaustive enumeration of value trees x representations, decided by decoding the real output with an independent parser",
@@ -260,7 +261,7 @@ CHECKS.update({
              "height <= 3 in every representation, every wrapper tree of height <= 2 (thorough: 3), list sizes around maxListSize 0-3 in both dimensions, and "
              "failing/panicking producers and closures: the complete output is tokenised by encoding/xml (strict) and must be balanced, use only the exporter's "
              "vocabulary (plus map keys that are XML names), decode in every text and attribute to exactly the value's strings, preserve list order and key sets, and "
-             "ToHtml must return an error, never panic. Exhaustive within these bounds (1.36 M / 38 M cases).",
+             "ToHtml must return an error, never panic; every XML document is kept as returned and must be unchanged after the next export. Exhaustive within these bounds (1.36 M / 38 M cases).",
         note="Trusted: encoding/xml plus the harness' own end-tag matching, attribute-uniqueness and attribute-normalisation decoder; the HTML reference model in "
              "cmd/c18/model.go (decoration texts and float formatting accepted as any text). Counted unspecified: raw TAB/LF in ToHtml attribute values, name-space "
              "meaning of keys with ':' or prefix 'xml', names valid only in XML 1.0 5th edition, indentation next to text in plainList output.",
@@ -329,7 +330,7 @@ CHECKS.update({
     "C03": dict(
         level="exploration", engine="bex",
         text="Every operator table of 1..3 (thorough: ..4) binary spellings from a 12-spelling pool built to collide under maximal munch, with every subset of prefix "
-             "operators {- ! ~} (also binary at every position including the last) and a text alias on/off, plus dead-end, prefix-of-binary and 16-operator tables, "
+             "operators {- ! ~} (also binary at every position including the last; such tables also with the builder calls in the orders Unary.Op and Op.Unary.Op) and a text alias on/off, plus dead-end, prefix-of-binary and 16-operator tables, "
              "is combined with every operator tree of <= 3 (thorough: 4) nodes in every parenthesisation (minimal, every subset of redundant pairs, full), with postfix "
              "and keyword forms around and inside the trees. The real Parse's AST must equal the tree of a reference precedence-climbing parser written from the "
              "property statement, which itself must reproduce every generated tree from every rendering. Every single-token deletion, insertion or substitution of every valid token "
